@@ -250,6 +250,8 @@ impl Case {
 #[derive(Default, Clone)]
 pub struct Outcome {
     pub viol: Option<Violation>,
+    /// deferred finding of the run (Watch::deferred)
+    pub alt: Option<Violation>,
     pub stats: Stats,
     pub faults: BTreeMap<String, u64>,
     pub steps: u64,
@@ -293,6 +295,7 @@ fn op_kind(o: &Op) -> u8 {
         Op::ReleaseRaw { .. } => 115,
         Op::Timer { k } => 116 + k.ix() as u8,
         Op::SetPing { .. } => 120,
+        Op::SetPingresp { ms } => 162 + (*ms != 0) as u8,
         Op::Advance { .. } => 121,
         Op::Close { partial } => 122 + (*partial != 0) as u8,
         Op::Crash => 124,
@@ -325,6 +328,7 @@ fn solo_outcome(s: Solo, ops: &[Op], states: Vec<u64>) -> Outcome {
     Outcome {
         nontrivial: s.w.stats.round_trips >= 1,
         viol: s.w.viol.clone(),
+        alt: s.w.deferred.clone(),
         steps: s.w.step as u64,
         sim_ms: s.now_ms,
         shape: h64(&kinds),
@@ -1132,7 +1136,18 @@ fn merge_o(o: &mut Outcome, f: &Outcome) {
     o.sim_ms += f.sim_ms;
 }
 
-pub fn replay(_prop: &str, case: &Case) -> Outcome {
+pub fn replay(prop: &str, case: &Case) -> Outcome {
+    let mut o = replay_inner(case);
+    if let Some(alt) = o.alt.take() {
+        let own = o.viol.as_ref().map_or(false, |v| v.props.iter().any(|p| *p == prop));
+        if !own && (o.viol.is_none() || alt.props.iter().any(|p| *p == prop)) {
+            o.viol = Some(alt);
+        }
+    }
+    o
+}
+
+fn replay_inner(case: &Case) -> Outcome {
     match case {
         Case::Chunk { cfg, ops, burst, cuts } => {
             let a = twin::run_reference(cfg, ops);
